@@ -183,7 +183,8 @@ class Gen(object):
         if r < 0.84:
             # alias
             src = self.rnd.choice(names)
-            alias = '\\vxl'
+            self.fresh += 1
+            alias = '\\vxl' + 'abcdefghijklmnopqrstuvwxyz'[self.fresh % 26] + 'abcdefghijklmnopqrstuvwxyz'[(self.fresh // 26) % 26]
             self.defs[alias] = self.defs[src]
             if src in self.ncinfo:
                 self.ncinfo[alias] = self.ncinfo[src]
